@@ -522,7 +522,7 @@ impl Builder {
                         let q = if self.is_float { arg.clamp(0, 8192) } else { arg.clamp(0, 1000) };
                         (Node::Clip(inner, q), amp.min(q as f64 / 1024.0 + 1e-9))
                     }
-                    B_DELAY => (Node::Delay(inner, arg.clamp(0, 12) as u64), amp),
+                    B_DELAY => (Node::Delay(inner, arg.clamp(0, 300) as u64), amp),
                     _ => return false,
                 };
                 if namp > if self.is_float { 64.0 } else { 0.9 } {
@@ -580,7 +580,7 @@ fn gen_build(r: &mut Rng, g: &mut Gen) -> Op {
         B_OFFSET => Op::ka(k, if r.chance(1, 4) { r.range(-3000, 3000) } else { r.range(-300, 300) }),
         B_SCALE_PC | B_OFFSET_PC => Op::ka(k, r.range(0, 1000)),
         B_CLIP => Op::ka(k, *r.pick(&[0, 1, 4, 16, 64, 200, 512, 900, 1024, 1500, 2048, 8192])),
-        B_DELAY => Op::ka(k, r.range(0, 6)),
+        B_DELAY => Op::ka(k, if r.chance(1, 12) { *r.pick(&[16i64, 63, 64, 65, 100, 255, 256]) } else { r.range(0, 6) }),
         _ => Op::k(k),
     }
 }
@@ -717,7 +717,7 @@ pub fn run_tree<F: AdFrame>(flavor: Flavor, src: &mut Source, obs: &mut Observer
     }
     let mut g = Gen {
         flavor,
-        steps: src.cfg("steps", 0, 100, |r| r.range(1, 100)) as usize,
+        steps: src.cfg("steps", 0, 3000, |r| if r.chance(1, 50) { r.range(500, 3000) } else { r.range(1, 100) }) as usize,
         done: 0,
         build_left: 0,
         allow_rewrap: src.cfg("allow_rewrap", 0, 1, |r| r.chance(1, 2) as i64) == 1,
